@@ -40,12 +40,13 @@ fn below(u: &mut Unstructured, n: usize) -> usize {
 
 pub fn tid(u: &mut Unstructured) -> Tid {
     // the two unbounded types get extra weight
-    let x = below(u, 23);
+    let x = below(u, 24);
     match x {
         0..=15 => x as Tid,
         16..=18 => TID_D,
         19..=21 => TID_A,
-        _ => 18,
+        22 => 18,
+        _ => 19,
     }
 }
 
